@@ -24,6 +24,7 @@ type Stmt struct {
 	Kind  string   `json:"kind"`  // simple expr exprnone compound bracket triple backslash semi comment syntaxerr blocksyntaxerr runtimeerr
 	Lines []string `json:"lines"` // physical lines
 	Blank int      `json:"blank"` // extra blank lines fed after the statement (besides the terminator)
+	BlankWS string `json:"blank_ws,omitempty"` // what an extra blank line consists of ("" or whitespace only)
 	Ticks []int    `json:"ticks"` // tick ids the statement contains (informational)
 }
 
@@ -239,6 +240,8 @@ func (Engine) Gen(seed uint64, idx int, tier string) interface{} {
 		st := decorate(r, g.stmt())
 		if r.Chance(1, 5) {
 			st.Blank = 1 + r.Intn(2)
+			// a line holding only whitespace is a blank line too
+			st.BlankWS = []string{"", "", "   ", "\t", " "}[r.Intn(5)]
 		}
 		sc.Stmts = append(sc.Stmts, st)
 	}
@@ -459,7 +462,7 @@ func (Engine) Exec(sci interface{}, opt harness.ExecOpts) *harness.Outcome {
 				promptErrs = append(promptErrs, fmt.Sprintf("statement %d (%s): everything entered has been executed but the prompt is %q", si, st.Kind, ui.prompt))
 			}
 			for b := 0; b < st.Blank; b++ {
-				feed("")
+				feed(st.BlankWS)
 				if ui.prompt != gprepl.NormalPrompt {
 					promptErrs = append(promptErrs, fmt.Sprintf("statement %d: extra blank line changed the prompt to %q", si, ui.prompt))
 				}
